@@ -503,6 +503,11 @@ def run(report, index, tier):
         'abstractly interpreted per alternative and its printed skeleton '
         'aligned with the production, and the LALR(1) table is rebuilt '
         '(ply as a library on the extracted tuples) to audit conflicts.')
+    # "the parser accepts / builds" is a statement about a text alone only
+    # if the result does not depend on what was parsed before (rules of
+    # C15: per-call construction, no state kept between calls)
+    from . import c15
+    c15.rules(report, index)
     report.count('productions', len(g.productions))
     report.count('nonterminals', len(g.nonterminals))
     report.count('action outcomes', sum(1 for _ in A.all_outcomes()))
